@@ -27,6 +27,7 @@ type GenWorld struct {
 	Edges   map[string][]string  // import edges between local files
 	StdOf   map[string][]string  // std libraries imported per file
 	StdFiles []WFile             // extra files of the std directory (library modules that take part in the import graph)
+	NamePool bool                // every program of this world takes its function names and the programs it calls from one small pool
 	AbsOK    bool                // import paths may be absolute: "{{MOUNT}}" stands for the directory the world is mounted at
 }
 
@@ -101,6 +102,9 @@ func AddMain(r *Rng, w *GenWorld, name string, stdPct int) {
 		w.StdOf[name] = append(w.StdOf[name], "strings")
 	}
 	f := RandomFeat(r)
+	if w.NamePool {
+		f.NamePool, f.Funcs, f.AppCalls, f.MaxFuncs = true, true, true, max(f.MaxFuncs, 2)
+	}
 	f.MaxTop = min(f.MaxTop, 5)
 	src, _ := GenProgram(r.Sub(), f, imps, "_"+strings.Map(func(c rune) rune {
 		if c >= 'a' && c <= 'z' || c >= '0' && c <= '9' {
@@ -240,6 +244,7 @@ func NewWorld(r *Rng, o WorldOpts) *GenWorld {
 	pub := make([][]FuncSig, len(names))
 	stdOf := map[int][]string{}
 	sharedGlobals := r.Chance(8) // (one world in twelve: its main program is usually rejected)
+	w.NamePool = r.Chance(12)
 	for i := len(names) - 1; i >= 0; i-- {
 		imps := []ModuleRef{}
 		for n, j := range edges[i] {
@@ -288,6 +293,9 @@ func NewWorld(r *Rng, o WorldOpts) *GenWorld {
 		}
 		f.PublicFuncs = i > 0
 		f.SharedGlobals = sharedGlobals
+		if w.NamePool {
+			f.NamePool, f.Funcs, f.AppCalls, f.MaxFuncs = true, true, true, max(f.MaxFuncs, 2)
+		}
 		f.LibScoped = i > 0 && r.Chance(85)
 		if r.Chance(50) {
 			f.WorldPaths = worldPaths(names[i])
